@@ -655,6 +655,10 @@ func (tt *TermTable) FPPred(op string, a *Term) *Term { // fp.isNaN, fp.isInfini
 			return tt.Bool(math.IsNaN(x))
 		case "fp.isInfinite":
 			return tt.Bool(math.IsInf(x, 0))
+		case "fp.isZero":
+			return tt.Bool(x == 0)
+		case "fp.isNegative":
+			return tt.Bool(math.Signbit(x) && !math.IsNaN(x))
 		}
 	}
 	return tt.mk(op, sortBool, 0, "", 0, 0, a)
@@ -864,6 +868,10 @@ func Eval(t *Term, m Model, cache evalCache) uint64 {
 		r = b2u(math.IsNaN(fp(0)))
 	case "fp.isInfinite":
 		r = b2u(math.IsInf(fp(0), 0))
+	case "fp.isZero":
+		r = b2u(fp(0) == 0)
+	case "fp.isNegative":
+		r = b2u(math.Signbit(fp(0)) && !math.IsNaN(fp(0)))
 	case "to_fp_signed":
 		v := signExt(a(0), t.args[0].sort.W)
 		if t.sort.K == SFP32 {
